@@ -215,6 +215,32 @@ RING3 == [Bp("RING3", C3cur, Econ("A") \o Econ("B") \o Econ("K"), {9})
                  !.flows = << Flow(2, 8, "GIFT", FALSE, TRUE), Flow(8, 14, "GIFT", FALSE, TRUE), Flow(14, 2, "GIFT", TRUE, TRUE) >>,
                  !.exo = << Exo(1, "DEM_GOOD"), Exo(7, "DEM_GOOD"), Exo(13, "DEM_GOOD") >>]
 
-AllBlueprints == {RING3, REG2, GOLDCB, TWOBUS, TWOGIFTS, SIMBOND, IMPORTRES, NOEXT3, SIMX, SIMR, SIMEXR, JOIN2, JOIN2X, GOLD2, GOLDNOEXT, SIM, SIMEX, SIMCAP, SIMMARGIN, SIMMON, SIMDEP, PC, MULTI, FED, GIFT, GIFT2, IMPORT, NOEXT1, NOEXT2, NOSUP, TWOSUP}
+\* ---- two goods markets whose codes are prefix-related (GOOD, GOODX), one firm and one government in both ---------
+MULTIX == [Bp("MULTIX", C1,
+           << [Sd("C", "GOV", "ConsolidatedGovernment") EXCEPT !.extra = << "DEM_GOODX" >>],
+              Sd("C", "HH", "Household"),
+              Sd("C", "GOOD", "Market"), Sd("C", "GOODX", "Market"),
+              [Sd("C", "BUS", "FixedMarginBusinessMultiOutput") EXCEPT !.mkts = << 3, 4 >>],
+              Sd("C", "TF", "TaxFlow"), Sd("C", "LAB", "Market") >>, {3, 4, 7})
+        EXCEPT !.freeq = {3, 4}, !.exo = << Exo(1, "DEM_GOOD"), Exo(1, "DEM_GOODX") >>,
+               !.suppliers = << [mkt |-> 3, sup |-> 5, rule |-> FALSE], [mkt |-> 4, sup |-> 5, rule |-> FALSE] >>]
+
+\* ---- three regions of one currency; R1's goods market is supplied by the firms of all three regions, which share ----
+\* ---- the sector code BUS (R1's firm is the residual supplier)                                                   ----
+C3reg == << [code |-> "R1", cur |-> "X"], [code |-> "R2", cur |-> "X"], [code |-> "R3", cur |-> "X"] >>
+TRIREG == [Bp("TRIREG", C3reg,
+           << Sd("R1", "GOV", "ConsolidatedGovernment"), Sd("R1", "TF", "TaxFlow"),
+              Sd("R1", "HH", "Household"), Sd("R1", "BUS", "FixedMarginBusiness"), Sd("R1", "LAB", "Market"), Sd("R1", "GOOD", "Market"),
+              Sd("R2", "HH", "Household"), Sd("R2", "BUS", "FixedMarginBusinessMultiOutput"), Sd("R2", "LAB", "Market"),
+              Sd("R3", "HH", "Household"), Sd("R3", "BUS", "FixedMarginBusinessMultiOutput"), Sd("R3", "LAB", "Market") >>, {4, 8})
+        EXCEPT !.freeq = {8}, !.exo = << Exo(1, "DEM_GOOD") >>,
+               !.sectors[8].late = << 6 >>, !.sectors[11].late = << 6 >>,
+               !.suppliers = << [mkt |-> 6, sup |-> 8, rule |-> TRUE], [mkt |-> 6, sup |-> 11, rule |-> TRUE],
+                                [mkt |-> 6, sup |-> 4, rule |-> FALSE] >>]
+
+\* ---- as TWOBUS, the second business being an instance of a user-defined subclass of FixedMarginBusiness -----------
+TWOBUSX == [TWOBUS EXCEPT !.name = "TWOBUSX", !.sectors[5].kind = "FixedMarginBusinessSub"]
+
+AllBlueprints == {MULTIX, TRIREG, TWOBUSX, RING3, REG2, GOLDCB, TWOBUS, TWOGIFTS, SIMBOND, IMPORTRES, NOEXT3, SIMX, SIMR, SIMEXR, JOIN2, JOIN2X, GOLD2, GOLDNOEXT, SIM, SIMEX, SIMCAP, SIMMARGIN, SIMMON, SIMDEP, PC, MULTI, FED, GIFT, GIFT2, IMPORT, NOEXT1, NOEXT2, NOSUP, TWOSUP}
 QuickBlueprints == { [b EXCEPT !.free = b.freeq] : b \in AllBlueprints }
 =============================================================================
